@@ -32,7 +32,7 @@ PROPS["C18"] = dict(
     proof_files=["Proofs/ReloadId.v", "Proofs/ReloadIdAccept.v", "Tie/ReloadId.v", "Props/C18.v"],
     proof_targets=["Props/C18.vo"],
     props_module="Props.C18",
-    theorems=["C18_update_code_is_max", "C18_code_ids_compare_as_numbers", "C18_code_ids_are_whole_words", "C18_update_true_iff_grew", "C18_never_is_least",
+    theorems=["C18_update_code_is_max", "C18_code_ids_compare_as_numbers", "C18_code_ids_are_whole_words", "C18_code_update_is_total", "C18_update_true_iff_grew", "C18_never_is_least",
               "C18_atomic_code_is_model", "C18_one_atomic_access_per_method", "C18_final_is_max",
               "C18_cell_monotone", "C18_one_true_per_growth",
               "C18_update_answer_is_growth_of_that_step", "C18_accept_complete"],
@@ -78,16 +78,17 @@ PROPS["C08"] = dict(
     model_files=["Rust/Ast.v", "Rust/Syntax.v", "Rust/Script.v", "Ref/Answers.v"],
     model_targets=["Ref/Answers.vo", "Rust/Script.vo"],
     proof_files=["Proofs/AnsInv.v", "Proofs/AnsR.v", "Proofs/AnsC.v", "Proofs/AnsWork.v", "Proofs/AnsBridge.v", "Proofs/Dfs.v", "Witness/OldD1.v",
-                 "Tie/Answers.v", "Tie/Graph.v", "Props/C08.v"],
+                 "Tie/Answers.v", "Tie/Graph.v", "Tie/Erasure.v", "Props/C08.v"],
     proof_targets=["Props/C08.vo", "Witness/OldD1.vo"],
     props_module="Props.C08",
     theorems=["C08_code_has_the_protocol_shapes", "C08_code_senders_never_block", "C08_no_deadlock", "C08_every_step_decreases_the_measure",
               "C08_bounded_work", "C08_every_call_returns", "C08_released_by_own_token",
               "C08_sort_terminates", "C08_sort_exact_and_duplicate_free",
-              "C08_code_marks_before_recursing", "C08_code_reloader_thread_has_the_default_stack", "C08_old_visit_diverges",
+              "C08_code_marks_before_recursing", "C08_code_reloader_thread_has_the_default_stack",
+              "C08_code_a_panicking_reload_is_survived", "C08_old_visit_diverges",
               "C08_executable_model_never_deadlocks", "C08_executable_model_bounded_work",
               "C08_executable_model_rests_only_when_all_returned"],
-    engines=[("answers", ["--parts", "shapes,flood,conc,gone,deep"])],
+    engines=[("answers", ["--parts", "shapes,panic,flood,conc,gone,deep"])],
     thorough_features=[["parking_lot"]],
     disagreement_is_violation=True,
     rule="answers: (B) every digraph of get_cached look-ups on <=2 (quick) / <=3 (thorough) TNode assets "
@@ -548,12 +549,12 @@ sys_prop(
     "(older edges dropped, nobody else's moved) and in every reachable state the two directions of the graph "
     "agree.  `an edit reloads exactly the assets whose own load touched the entry, "
     "plus dependents` is the correspondence of visited sets.  Not covered: two caches used from one load.",
-    ["Proofs/SysRecs.v", "Proofs/SysGraph.v", "Tie/Records.v", "Props/C14.v"], ["Props/C14.vo"],
+    ["Proofs/SysRecs.v", "Proofs/SysGraph.v", "Tie/Records.v", "Tie/Dirs.v", "Props/C14.v"], ["Props/C14.vo"],
     ["C14_code_records_as_modelled", "C14_nested_reloadable_load_records_only_the_asset",
      "C14_no_record_records_nothing", "C14_helper_thread_records_nothing",
      "C14_top_level_load_leaves_no_record", "C14_insertion_attributes_exactly_the_recorded_entries",
-     "C14_graph_directions_agree_in_every_history"],
-    ["Records", "Anycache", "Asset"], [], mode="hot")
+     "C14_graph_directions_agree_in_every_history", "C14_code_directory_assets_record_what_they_load"],
+    ["Records", "Anycache", "Asset", "Dirs"], [], mode="hot")
 
 PROPS["C12"] = dict(
     technique="Coq proof that id_of_path inverts path_of for every valid entry under any root at any depth, "
@@ -705,14 +706,15 @@ PROPS["C11"] = dict(
                "equality inside Coq); `an unreadable sub-directory is skipped without hiding its siblings` is "
                "the sysdiff correspondence with Ref.Sys.load_rec_dir_value.",
     level_note="Trusted: as C04; the sort order compared is byte order of the joined ids.",
-    gen=["Dirs", "Flags", "Archive"],
+    gen=["Dirs", "Flags", "Archive", "Embed"],
     model_files=["Ref/Tree.v", "Ref/Archive.v", "Corr/Common.v", "Corr/SrcCheck.v", "Ref/Load.v", "Ref/Sys.v", "Corr/SysCheck.v"],
     model_targets=["Corr/SrcCheck.vo", "Corr/SysCheck.vo"],
-    proof_files=["Proofs/Tree.v", "Tie/Dirs.v", "Tie/Archive.v", "Props/C11.v"],
+    proof_files=["Proofs/Tree.v", "Tie/Dirs.v", "Tie/Archive.v", "Tie/Embed.v", "Props/C11.v"],
     proof_targets=["Props/C11.vo"],
     props_module="Props.C11",
     theorems=["C11_dir_ids_are_exactly_the_matching_files", "C11_missing_directory_is_an_error",
-              "C11_rec_dir_ids_is_the_union", "C11_code_as_specified", "C11_code_archives_list_each_entry_once"],
+              "C11_rec_dir_ids_is_the_union", "C11_code_as_specified", "C11_code_archives_list_each_entry_once",
+              "C11_code_embed_macro_lists_every_entry"],
     engines=[("srcdiff", []), ("sysdiff", ["--mode", "cold", "--cases", "200"])],
     relevant_classes=["iter-mismatch"],
     rule=SRC_RULE,
